@@ -2,7 +2,7 @@ use std::{any::Any, cell::RefCell, collections::HashMap, rc::Rc};
 
 use tulisp_proc_macros::crate_fn;
 
-use crate::{Error, TulispContext, TulispObject};
+use crate::{Error, TulispContext, TulispObject, TulispValue};
 
 struct TulispObjectEql(TulispObject);
 
@@ -12,6 +12,11 @@ impl std::hash::Hash for TulispObjectEql {
             self.0.as_int().unwrap().hash(state);
         } else if self.0.floatp() {
             self.0.as_float().unwrap().to_bits().hash(state);
+        } else if self.0.null() {
+            // nil and t are `eql` to every other nil / t object.
+            state.write_u8(0);
+        } else if matches!(&*self.0.inner_ref(), TulispValue::T) {
+            state.write_u8(1);
         } else {
             state.write_usize(self.0.addr_as_usize());
         }
